@@ -11,7 +11,7 @@ func baseWeights() map[string]int {
 		"new": 14, "newBatch": 5, "copy": 3, "add": 12, "remove": 9, "exchange": 8, "set": 5, "write": 5,
 		"setRel": 6, "removeEntity": 7,
 		"addBatch": 3, "removeBatch": 3, "exchangeBatch": 2, "setRelBatch": 2, "removeEntities": 3,
-		"filterNew": 4, "filterReg": 2, "query": 6, "shrink": 2, "reset": 0, "stats": 1, "read": 2,
+		"filterNew": 4, "filterReg": 2, "query": 6, "shrink": 2, "reset": 0, "stats": 1, "read": 2, "scenario": 2,
 	}
 }
 
@@ -91,7 +91,7 @@ func init() {
 	}
 	Props["C06"] = &PropDef{
 		ID: "C06",
-		Profile: &Profile{Name: "batch", W: with(baseWeights(), "addBatch", 10, "removeBatch", 9, "exchangeBatch", 8, "setRelBatch", 8, "removeEntities", 7, "newBatch", 10, "filterNew", 7, "filterReg", 4, "query", 3),
+		Profile: &Profile{Name: "batch", W: with(baseWeights(), "addBatch", 10, "removeBatch", 9, "exchangeBatch", 8, "setRelBatch", 8, "removeEntities", 7, "newBatch", 10, "filterNew", 7, "filterReg", 4, "query", 3, "scenario", 6),
 			MaxEnts: 40, MinOps: 10, MaxOps: 100, RelBias: 30},
 		Policies: []Policy{{}, {ExpandBatches: true}},
 		Opt:      Options{DeepEvery: 10},
@@ -197,7 +197,7 @@ func init() {
 	}
 	Props["C14"] = &PropDef{
 		ID:       "C14",
-		Profile:  &Profile{Name: "typed", W: with(obsW, "obsNew", 4, "obsReg", 4, "query", 10, "filterNew", 6, "addBatch", 4, "removeBatch", 4, "exchangeBatch", 4, "setRelBatch", 4, "newBatch", 6), MaxEnts: 30, MinOps: 10, MaxOps: 100, RelBias: 20, ObsPrefix: 2},
+		Profile:  &Profile{Name: "typed", W: with(obsW, "obsNew", 4, "obsReg", 4, "query", 10, "filterNew", 6, "addBatch", 4, "removeBatch", 4, "exchangeBatch", 4, "setRelBatch", 4, "newBatch", 6, "scenario", 8), MaxEnts: 40, MinOps: 10, MaxOps: 100, RelBias: 20, ObsPrefix: 2},
 		Policies: []Policy{{}, {ForceUnsafe: true}},
 		Opt:      Options{DeepEvery: 4, Events: true},
 		Rule: genNote + "backend B0 executes every op through the drawn typed variant (Map, Map1-12, Exchange1-8, Observer1-4; Filter0-8/Query0-8 on both), backend B1 the same op through the ID-based API with the same component list; " +
